@@ -102,6 +102,22 @@ const VALUES: &[&str] = &["main", "feature/X-1", "Release/0012", "007", "a..b", 
     "VeryLongBranchNameWithManyCharacters/and/segments/0001/0002", "x", "1.2.3", "UPPER", "ab", "😀😀😀😀", "a😀b😀c", "with space", "00a", "0000"];
 const FORMATS: &[&str] = &["%Y-%m-%d", "%Y%m%d", "%y.%-m.%-d", "%H:%M:%S", "%j", "%Y/%j %H", "compact_date", "compact_datetime", "v%Y.%m", "%%%Y", "plain"];
 
+/// chrono's strftime directives whose value is determined by the UTC instant (Template.tla `Directive`)
+const DIRECTIVES: &[&str] = &["%Y", "%C", "%y", "%m", "%d", "%e", "%H", "%k", "%I", "%l", "%M", "%S", "%j", "%U", "%W", "%V", "%G", "%g", "%u", "%w",
+    "%a", "%A", "%b", "%h", "%B", "%p", "%P", "%D", "%x", "%F", "%T", "%X", "%R", "%r", "%c", "%v", "%+", "%z", "%:z", "%::z", "%:::z", "%Z", "%f", "%s", "%%",
+    "%-m", "%-d", "%-H", "%-M", "%-S", "%-j", "%-I", "%-y", "%-U", "%-W", "%-V", "%-e", "%_m", "%_d", "%_H", "%_j", "%_I", "%0e", "%0k", "%0l", "%_S", "%-C", "%-g"];
+const LITERALS: &[&str] = &["", "", "-", ".", ":", " ", "T", "/", "v", "week ", "_", ",", "Z"];
+
+pub fn random_format(rng: &mut StdRng) -> String {
+    let mut f = String::new();
+    for _ in 0..rng.gen_range(1..=4) {
+        f.push_str(LITERALS[rng.gen_range(0..LITERALS.len())]);
+        f.push_str(DIRECTIVES[rng.gen_range(0..DIRECTIVES.len())]);
+    }
+    f.push_str(LITERALS[rng.gen_range(0..LITERALS.len())]);
+    f
+}
+
 pub fn record(args: &[String]) {
     let seed: u64 = args[0].parse().unwrap();
     let n: usize = args[1].parse().unwrap();
@@ -194,12 +210,13 @@ pub fn record(args: &[String]) {
                     6 => (2_932_896, 86_399),
                     _ => ([24_855u64, 49_710, 99_999, 115_739, 115_741, 1_157_407][rng.gen_range(0..6)], rng.gen_range(0..86400)),
                 };
-                let f = FORMATS[rng.gen_range(0..FORMATS.len())];
+                let f: String = if rng.gen_bool(0.4) { FORMATS[rng.gen_range(0..FORMATS.len())].to_string() } else { random_format(&mut rng) };
+                let f = f.as_str();
                 let mut z = base_object("main");
                 z.vars.bumped_timestamp = Some(day * 86400 + sod);
                 let o = eval(&z.to_string(), &format!("format_timestamp(value=bumped_timestamp, format=\"{f}\")"));
                 json!({"k": "format_timestamp", "inst": {"c": civil_json(day), "sod": sod},
-                       "format": to_cps(f), "out": res(&o), "tz": std::env::var("TZ").unwrap_or_default()})
+                       "format": to_cps(f), "ts": to_cps(&(day * 86400 + sod).to_string()), "out": res(&o), "tz": std::env::var("TZ").unwrap_or_default()})
             }
         };
         writeln!(out, "{ev}").unwrap();
